@@ -13,18 +13,18 @@ import KVerif.Model.Switch
 namespace KVerif.L
 
 /-! ## Capacities (tied to the source by `consts_from_source` in Props) -/
-def QUEUE_SIZE : Nat := 32
-def ACTION_QUEUE_LEN : Nat := 8
-def EXTRA_WAITING_LEN : Nat := 8
-def HISTORICAL_EVENT_LEN : Nat := 8
-def ONE_SHOT_MAX_ACTIVE : Nat := 16
-def STATES_CAP : Nat := 64
-def ACTIVE_SEQ_CAP : Nat := 4
-def MAX_ACTIVE_LAYERS : Nat := 12
-def BUFCAP : Nat := 20
-def NORMAL_KEY_FLAG_CLEAR_ON_NEXT_ACTION : Nat := 1
-def NORMAL_KEY_FLAG_CLEAR_ON_NEXT_RELEASE : Nat := 2
-def U16_MAX : Nat := 65535
+abbrev QUEUE_SIZE : Nat := 32
+abbrev ACTION_QUEUE_LEN : Nat := 8
+abbrev EXTRA_WAITING_LEN : Nat := 8
+abbrev HISTORICAL_EVENT_LEN : Nat := 8
+abbrev ONE_SHOT_MAX_ACTIVE : Nat := 16
+abbrev STATES_CAP : Nat := 64
+abbrev ACTIVE_SEQ_CAP : Nat := 4
+abbrev MAX_ACTIVE_LAYERS : Nat := 12
+abbrev BUFCAP : Nat := 20
+abbrev NORMAL_KEY_FLAG_CLEAR_ON_NEXT_ACTION : Nat := 1
+abbrev NORMAL_KEY_FLAG_CLEAR_ON_NEXT_RELEASE : Nat := 2
+abbrev U16_MAX : Nat := 65535
 
 inductive Crash
   | fuelOut                 -- unbounded recursion (stack overflow)
@@ -736,8 +736,12 @@ mutual
         | .trans => s.resolveCoord coord layerStack
         | a => .ok (a, layerStack)) with
       | .error c => .error c
-      | .ok (action, layerStack) =>
-      let s := prelude s coord
+      | .ok (action, layerStack) => dispatch fuel (prelude s coord) action coord delay isOneshot layerStack
+
+  /-- the `match action` of `do_action`, after `Trans` resolution and the prelude -/
+  def dispatch : Nat → Layout → Action → Coord → Nat → Bool → List Nat → Except Crash (Layout × CustomEv)
+    | 0, _, _, _, _, _, _ => .error .fuelOut
+    | fuel + 1, s, action, coord, delay, isOneshot, layerStack =>
       match action with
       | .noOp => .ok (armNoOp s action coord isOneshot, .noEvent)
       | .src =>
@@ -903,6 +907,7 @@ end
 /-- recursion budget: far above any finite nesting the parser can produce, far below what the
 driver needs to stay fast; exhausting it stands for the stack overflow of unbounded recursion -/
 def FUEL : Nat := 4000
+theorem FUEL_succ : FUEL = 3999 + 1 := rfl
 
 /-- `Layout::waiting_into_tap` -/
 def waitingIntoTap (s : Layout) (pq : Option (List Coord)) (idx : Option Nat) : Except Crash (Layout × CustomEv) :=
@@ -1026,46 +1031,70 @@ def processSequenceCustom (s : Layout) (cur : CustomEv) : Layout × CustomEv :=
   let (states, cu) := go states
   ({ s with states := states }, cu)
 
+/-- first part of `tick`: age the queue, tick the quick-tap tracker and the eager tap-dance, advance
+sequences, age the histories -/
+def tickPre (s : Layout) : Layout :=
+  let s := { s with queue := s.queue.map fun (q : Queued) => { q with since := min (q.since + 1) U16_MAX } }
+  let s := { s with lptTapHoldTimeout := s.lptTapHoldTimeout - 1 }
+  let s := match s.tapDanceEager with
+    | some tde =>
+      let tde := { tde with timeout := tde.timeout - 1 }
+      if tde.isExpired then { s with tapDanceEager := none } else { s with tapDanceEager := some tde }
+    | none => s
+  let s := processSequences s
+  { s with histKeys := histTick s.histKeys, histInputs := histTick s.histInputs }
+
+/-- `for key in released_keys { custom.update(self.dequeue(Release key)) }` -/
+def releaseOneshotKeys : List Coord → Layout → CustomEv → Except Crash (Layout × CustomEv)
+  | [], s, cu => .ok (s, cu)
+  | k :: rest, s, cu =>
+    match dequeue FUEL s ⟨.release k, 0⟩ with
+    | .error c => .error c
+    | .ok (s, c1) => releaseOneshotKeys rest s (cu.update c1)
+
+/-- second part: one-shot expiry -/
+def tickOneshot (s : Layout) : Except Crash (Layout × CustomEv) :=
+  match s.oneshot.tick with
+  | (o, some keys) => releaseOneshotKeys keys { s with oneshot := o } .noEvent
+  | (o, none) => .ok ({ s with oneshot := o }, .noEvent)
+
+def Layout.setQueue (s : Layout) (q : List Queued) : Layout := { s with queue := q }
+
+/-- third part: the waiting state decides, or one queued event is processed -/
+def tickMain (s : Layout) : Except Crash (Layout × CustomEv) :=
+  match s.waiting with
+  | some w =>
+    match tickWt w s.queue s.actionQueue with
+    | .error c => .error c
+    | .ok (w, q, aq, r) =>
+      applyWaitingAction { s with waiting := some w, queue := q, actionQueue := aq } r none .noEvent
+  | none =>
+    if s.extraWaiting.isEmpty then
+      if s.oneshot.pauseInputProcessingTicks > 0 then
+        .ok ({ s with oneshot := { s.oneshot with pauseInputProcessingTicks := s.oneshot.pauseInputProcessingTicks - 1 } }, .noEvent)
+      else match s.queue with
+        | q :: rest => dequeue FUEL (s.setQueue rest) q
+        | [] => .ok (s, .noEvent)
+    else .ok (s, .noEvent)
+
 /-- `Layout::tick` (without chords v2) -/
-def tick (s : Layout) : Except Crash (Layout × CustomEv) := do
+def tick (s : Layout) : Except Crash (Layout × CustomEv) :=
   match s.actionQueue with
   | (coord, delay, action) :: rest =>
     let s := { s with actionQueue := rest }
-    let order ← s.transOrder
-    doAction FUEL s action coord delay false (order.drop 1)
+    match s.transOrder with
+    | .error c => .error c
+    | .ok order => doAction FUEL s action coord delay false (order.drop 1)
   | [] =>
-    let s := { s with queue := s.queue.map fun (q : Queued) => { q with since := min (q.since + 1) U16_MAX } }
-    let s := { s with lptTapHoldTimeout := s.lptTapHoldTimeout - 1 }
-    let s := match s.tapDanceEager with
-      | some tde =>
-        let tde := { tde with timeout := tde.timeout - 1 }
-        if tde.isExpired then { s with tapDanceEager := none } else { s with tapDanceEager := some tde }
-      | none => s
-    let s := processSequences s
-    let s := { s with histKeys := histTick s.histKeys, histInputs := histTick s.histInputs }
-    let (o, released) := s.oneshot.tick
-    let s := { s with oneshot := o }
-    let (s, custom) ← match released with
-      | some keys => keys.foldlM (fun (acc : Layout × CustomEv) k => do
-          let (s, cu) ← dequeue FUEL acc.1 ⟨.release k, 0⟩
-          pure (s, acc.2.update cu)) (s, CustomEv.noEvent)
-      | none => pure (s, CustomEv.noEvent)
-    let (s, cu2) ← match s.waiting with
-      | some w =>
-        let (w, q, aq, r) ← tickWt w s.queue s.actionQueue
-        let s := { s with waiting := some w, queue := q, actionQueue := aq }
-        applyWaitingAction s r none .noEvent
-      | none =>
-        if s.extraWaiting.isEmpty then
-          if s.oneshot.pauseInputProcessingTicks > 0 then
-            pure ({ s with oneshot := { s.oneshot with pauseInputProcessingTicks := s.oneshot.pauseInputProcessingTicks - 1 } }, CustomEv.noEvent)
-          else match s.queue with
-            | q :: rest => dequeue FUEL { s with queue := rest } q
-            | [] => pure (s, CustomEv.noEvent)
-        else pure (s, CustomEv.noEvent)
-    let custom := custom.update cu2
-    let (s, custom) ← processExtraWaitings s custom
-    pure (processSequenceCustom s custom)
+    match tickOneshot (tickPre s) with
+    | .error c => .error c
+    | .ok (s, c1) =>
+      match tickMain s with
+      | .error c => .error c
+      | .ok (s, c2) =>
+        match processExtraWaitings s (c1.update c2) with
+        | .error c => .error c
+        | .ok (s, c3) => .ok (processSequenceCustom s c3)
 
 /-- `Layout::event` at top level -/
 def Layout.event (s : Layout) (ev : Ev) : Except Crash Layout := KVerif.L.event FUEL s ev
